@@ -2,3 +2,4 @@ pub mod model;
 pub mod rec;
 pub mod gen;
 pub mod viz;
+pub mod sched;
